@@ -90,7 +90,10 @@ NAMES = ['reason', 'traceback', 'log', 'nämé ☃', 'stdout']
 #: content-type tokens -> (type, subtype, parameters); token 0 is the default of `_make_content_type(None)`
 CTS = [('application', 'octet-stream', {}), ('text', 'plain', {'charset': 'utf8'}),
        ('text', 'x-thing', {'charset': 'utf8', 'k': 'v 1;2'}), ('image', 'png', {}), ('text', 'plain', {'charset': 'latin-1'}),
-       ('text', 'x-traceback', {'charset': 'utf8', 'language': 'python'})]
+       ('text', 'x-traceback', {'charset': 'utf8', 'language': 'python'}),
+       # parameter values that need quoting / escaping in the MIME rendering (inside C16's round-trip domain)
+       ('application', 'x-quoted', {'title': 'the "big" log'}), ('application', 'x-backslash', {'k': 'a\\b\\'}),
+       ('application', 'x-seps', {'k': '; , = /', 'l': ''}), ('text', 'plain', {'charset': 'utf8', 'note': '\u00e9 \u4e2d'})]
 
 
 def test_id(n):
